@@ -109,7 +109,79 @@ def strategy(tier):
             st_program(cfg(tier)), st_program(cfg(tier)), st_program(cfg(tier)), st_mat_over_chain(tier), st_roundtrip_over_pruned_chain(tier)
         ),
         st.integers(1, 3),
+        # 0: the program alone; 1: chained with a second, separately built copy of itself (equal but distinct relation
+        # objects); 2: chained with the same program over twin leaves (same names / engines / columns, other rows)
+        st.sampled_from([0, 0, 0, 1, 2]),
     )
+
+
+def shift_leaves(prog, k, memo=None):
+    """The same program over leaf indices shifted by k (sharing preserved)."""
+    from vf.core.prog import children
+
+    memo = {} if memo is None else memo
+    if id(prog) in memo:
+        return memo[id(prog)]
+    if prog[0] == "leaf":
+        out = ("leaf", prog[1] + k) + tuple(prog[2:])
+    else:
+        kids = children(prog)
+        new = tuple(shift_leaves(c, k, memo) for c in kids)
+        out = (prog[0],) + new + tuple(prog[1 + len(kids) :])
+    memo[id(prog)] = out
+    return out
+
+
+def refine_processed(prog, leaves, universe, result, env, proc, stats, ctx):
+    """Histories: an operation applied to an already processed tree (whose transfers carry payloads), asking for it to be
+    inserted in each engine in turn; the refined tree is processed and executed like any other multi-engine tree."""
+    from lsst.daf.relation import ColumnError, EngineError
+
+    from vf.core.expr import lib_e, lib_p
+    from vf.core.prog import schema
+    from vf.core.tags import sorted_tags
+
+    cols = sorted_tags(schema(prog, leaves))
+    if not cols:
+        return
+    base_rows = ev_multi(prog, leaves).rows
+    vals = sorted({r[cols[0]] for r in base_rows})
+    pivot = vals[len(vals) // 2] if vals else 0
+    pred = ("ge", ("ref", cols[0]), ("lit", pivot))
+    fresh = [t for t in universe if t not in cols]
+    requests = [("sel", ("sel", prog, pred), lambda r, **o: r.with_rows_satisfying(lib_p(pred), **o))]
+    if fresh:
+        expr = ("ref", cols[0])
+        requests.append(("calc", ("calc", prog, fresh[0], expr), lambda r, **o: r.with_calculated_column(fresh[0], lib_e(expr), **o)))
+    for name, node, call in requests:
+        expected = None
+        for ei, pe in enumerate(env.engines):
+            try:
+                refined = call(result, preferred_engine=pe)
+            except Exception as e:
+                if isinstance(e, (ColumnError, EngineError)) or is_order_loss(e):
+                    stats.c["refine:refused"] += 1
+                    continue
+                raise Violation("refine-raised", f"{name} on the processed tree with preferred_engine=E{ei} raised {type(e).__name__}: {str(e)[:200]}; {ctx}", sig=exc_sig(e))
+            try:
+                got = execute_processed(env, proc.process(refined))
+            except DatabaseError:
+                continue
+            except Exception as e:
+                raise Violation(
+                    "refined-tree-not-executable",
+                    f"{name} with preferred_engine=E{ei} applied to the processed tree, then process() + execute raised {type(e).__name__}: {str(e)[:300]}; processed {str(result)[:300]}; refined {str(refined)[:300]}; {ctx}",
+                    sig=exc_sig(e),
+                )
+            if expected is None:
+                expected = ev_multi(node, leaves)
+            bad = compare(expected, got)
+            if bad:
+                raise Violation(
+                    "refined-rows-differ",
+                    f"{name} with preferred_engine=E{ei} applied to the processed tree: {bad}; processed {str(result)[:300]}; refined {str(refined)[:300]}; {ctx}",
+                )
+            stats.c["refine:compared"] += 1
 
 
 def has_iter_join(prog, leaves):
@@ -164,10 +236,34 @@ def reuse_cached_materializations(prog, rels, leaves, env, proc, stats, ctx):
         done += 1
         pred = ("ge", ("ref", cols[0]), ("lit", 0))
         sel_node = ("sel", node, pred)
-        for what, n, r in (("selection on cached materialization", sel_node, None), ("cached materialization again", node, rel)):
+        from vf.core.prog import engine_of
+
+        here = engine_of(node, leaves)
+        other = (here + 1) % 3
+        trip_node = ("chain", node, ("xfer", ("mat", ("xfer", node, other), f"{node[2]}_trip"), here))
+        keys = tuple(c for c in cols if c.is_key)
+        join_node = ("join", node, ("xfer", ("mat", ("xfer", ("proj", node, keys), other), f"{node[2]}_keys"), here), None)
+        steps = [
+            ("selection on cached materialization", sel_node, None),
+            ("cached materialization again", node, rel),
+            ("chain of the cached materialization with a round-tripped copy of it", trip_node, "trip"),
+            ("cached materialization once more", node, rel),
+        ]
+        if here == 0 and keys:
+            steps += [
+                ("join of the cached materialization with a round-tripped projection of it", join_node, "join"),
+                ("cached materialization after the join", node, rel),
+            ]
+        for what, n, r in steps:
             try:
                 if r is None:
                     r = rel.with_rows_satisfying(lib_p(pred))
+                elif r == "trip":
+                    r = rel.chain(rel.transferred_to(env.engines[other]).materialized(f"{node[2]}_trip").transferred_to(env.engines[here]))
+                elif r == "join":
+                    r = rel.join(
+                        rel.with_only_columns(set(keys)).transferred_to(env.engines[other]).materialized(f"{node[2]}_keys").transferred_to(env.engines[here])
+                    )
                 got = execute_processed(env, proc.process(r))
             except DatabaseError:
                 return
@@ -198,21 +294,47 @@ def evaluable_nodes(rel):
 def run_case(case, stats):
     from lsst.daf.relation import ColumnError, EngineError, Materialization, Transfer
 
-    (universe, leaves, prog), ncalls = case
+    (universe, leaves, prog), ncalls, *more = case
+    mode = more[0] if more else 0
     if has_iter_join(prog, leaves):
         stats.c["skipped:iteration-join"] += 1
         return
-    truth = ev_multi(prog, leaves)
     env = Env(leaves)
+    tw = None
     try:
         rels = {}
         try:
             build_all(prog, env, rels)
+            if mode:
+                from vf.core.prog import twin_leaves
+
+                rels2 = {}
+                if mode == 2:
+                    leaves2 = twin_leaves(leaves)
+                    tw = env.twin(leaves2)
+                    build_all(prog, tw, rels2)
+                    prog = ("chain", prog, shift_leaves(prog, len(leaves)))
+                    leaves = tuple(leaves) + tuple(leaves2)
+                    env.leafrels = list(env.leafrels) + list(tw.leafrels)
+                    env.payloads = list(env.payloads) + list(tw.payloads)
+                    env.leaves = leaves
+                else:
+                    build_all(prog, env, rels2)
+                    prog = ("chain", prog, shift_leaves(prog, 0))
+                lhs, rhs = rels[id(case[0][2])], rels2[id(case[0][2])]
+                rels = {id(prog): lhs.chain(rhs)}
+                stats.c[f"mode:{'separately-built-copy' if mode == 1 else 'twin-leaves'}"] += 1
         except BuildError as b:
             if not (is_order_loss(b.exc) or isinstance(b.exc, (ColumnError, EngineError))):
                 raise Violation("build-raised", f"{fmt(b.node, leaves)}: {type(b.exc).__name__}: {b.exc}", exc=b.exc)
             stats.c["build:refused"] += 1
             return
+        except Exception as e:
+            if mode and (is_order_loss(e) or isinstance(e, (ColumnError, EngineError))):
+                stats.c["build:refused"] += 1
+                return
+            raise
+        truth = ev_multi(prog, leaves)
         tree = rels[id(prog)]
         had_payload = {id(n) for n in lib_nodes(tree) if getattr(n, "payload", None) is not None}
         before = fingerprint(tree, marker_payloads=False)
@@ -270,7 +392,9 @@ def run_case(case, stats):
                 raise Violation("rows-differ", f"call #{call}: {bad}; processed {str(result)[:300]}; {ctx}", call=call)
             stats.c["label:" + ("ordered" if truth.ordered else "det" if truth.det else "ambiguous")] += 1
         # later evaluations built on the (now cached) materializations of the input tree return the cached rows
-        reuse_cached_materializations(prog, rels, leaves, env, proc, stats, ctx)
+        if not mode:
+            reuse_cached_materializations(prog, rels, leaves, env, proc, stats, ctx)
+        refine_processed(prog, leaves, universe, result, env, proc, stats, ctx)
         # hook audit
         per_name = {}
         for hook, rel, dest, name in proc.log:
@@ -283,7 +407,7 @@ def run_case(case, stats):
             if name is not None:
                 per_name[name] = per_name.get(name, 0) + 1
         for name, cnt in per_name.items():
-            if cnt > 1:
+            if cnt > (2 if mode else 1):
                 raise Violation("materialization-recomputed", f"{cnt} hook calls for materialization {name!r} over {ncalls} process() call(s); {ctx}")
         ks = kinds(prog)
         if "xfer" in ks:
@@ -293,11 +417,14 @@ def run_case(case, stats):
                 cls = "+".join(sorted(set(ks) & {"mat", "chain", "join"})) or "unary"
                 stats.mark_nontrivial(codec.digest(case), lambda: describe(case), cls=cls + f"/calls={ncalls}")
     finally:
+        if tw is not None:
+            tw.close_tables()
         env.close()
 
 
 def describe(case):
-    return describe_case(*case[0], process_calls=case[1])
+    mode = case[2] if len(case) > 2 else 0
+    return describe_case(*case[0], process_calls=case[1], combined=("alone", "chained with a separately built copy", "chained with the same program over twin leaves")[mode])
 
 
 def attribute(case, v):
